@@ -883,3 +883,17 @@ def has_sym(a):
     if isinstance(a, (list, tuple)):
         return any(has_sym(e) for e in a)
     return False
+
+
+class HSym(Sym):
+    """Hashable symbolic scalar: usable inside dict keys (constant hash; equality stays a solver decision)."""
+    __slots__ = ()
+
+    def __hash__(self):
+        return 12345
+
+
+class ISym(HSym):
+    """Hashable symbolic scalar declared integer-valued (passes rewritten `isinstance(x, int)` guards)."""
+    __slots__ = ()
+    symbolic_int = True
